@@ -356,7 +356,81 @@ def evaluate(model, build, entries, moreau=True):
     return res
 
 
+def factory_pairs(rep, model):
+    """R6: the proximal factories come in documented pairs - `proximal_X(
+    space, lam, g)` for F = lam * X(. - g) and `proximal_convex_conj_X(space,
+    lam, g)` for its conjugate.  Called directly, with their parameters,
+    they satisfy the Moreau decomposition prox_{s F}(x) + s prox_{F*/s}(x/s)
+    = x, checked at numeric steps and points on both sides of every
+    threshold (the functionals of the library reach the conjugate factories
+    only with g = None)."""
+    from ..symex import Func
+    PROXMOD = 'odl/solvers/nonsmooth/proximal_operators.py'
+    C = lambda *v: [Rat.const(x) if not isinstance(x, Rat) else x for x in v]
+    from fractions import Fraction as Fr
+    lam = Rat.const(Fr(3, 2))
+    g = C(1, -1, 2, 0)
+    pts = {'far': C(5, 2, 4, 0), 'near': C(Fr(23, 10), Fr(-8, 5), 4, 0),
+           'mixed signs': C(-3, Fr(1, 2), 7, -1)}
+    n = 0
+    for base in ('l2', 'l1', 'l2_squared'):
+        f1 = model.ctx.func(PROXMOD, 'proximal_' + base)
+        f2 = model.ctx.func(PROXMOD, 'proximal_convex_conj_' + base)
+        if f1 is None or f2 is None:
+            raise AnalysisError('anchor vanished: proximal_%s / '
+                                'proximal_convex_conj_%s' % (base, base))
+        for w, wt in ((None, 'unweighted'), (Rat.const(4), 'weight 4')):
+            for with_g in (True, False):
+                for pname, xs in pts.items():
+                    for sg in (Rat.const(2), Rat.const(Fr(1, 3))):
+                        n += 1
+                        cons = ('proximal_%s / proximal_convex_conj_%s[%s,'
+                                '%s,%s,sigma=%s]' % (
+                                    base, base, wt, 'lam, g' if with_g
+                                    else 'lam', pname, sg))
+                        try:
+                            H = H7()
+                            I = I7(model, {}, H)
+                            sp = NSpace((4,), 'float64', w)
+                            kw = {'lam': lam}
+                            if with_g:
+                                kw['g'] = point(sp, g)
+                            mk = lambda f: I.call_func(Func(
+                                f, I.env_of(PROXMOD), None), [sp], dict(kw))
+                            p1 = I.call(I.call(mk(f1), [sg], {}),
+                                        [point(sp, xs)], {})
+                            p2 = I.call(I.call(mk(f2), [1 / sg], {}),
+                                        [point(sp, [x / sg for x in xs])],
+                                        {})
+                            a = flat(p1 if not isinstance(p1, NA)
+                                     else H.element(I, sp, p1))
+                            b = flat(p2 if not isinstance(p2, NA)
+                                     else H.element(I, sp, p2))
+                            bad = None
+                            for j, (u, v, x) in enumerate(zip(a, b, xs)):
+                                if not PA.same(u + sg * v, x, WIT):
+                                    bad = ('entry %d: prox_{s F}(x) + s '
+                                           'prox_{F*/s}(x/s) = %s, x = %s'
+                                           % (j, _s(PA.reduce_full(
+                                               u + sg * v)), _s(x)))
+                                    break
+                            if bad:
+                                rep.violation('R6', cons, bad, PROXMOD,
+                                              f2.lineno)
+                            else:
+                                rep.holds('R6', cons, 'Moreau decomposition '
+                                          'of the factory pair')
+                        except (Undecided, Fork) as e:
+                            rep.undecided('R6', cons, str(e), PROXMOD,
+                                          f2.lineno)
+                        except PyRaise as e:
+                            rep.violation('R6', cons, 'raises %s' % e.name,
+                                          PROXMOD, f2.lineno)
+    rep.floor('R6', 'factory pair evaluations', n, 60)
+
+
 def run(rep, model):
+    factory_pairs(rep, model)
     n = nclauses = 0
     for name, spec in builders(model).items():
         b, entries = spec[0], spec[1]
